@@ -21,8 +21,10 @@ def exact_matrix(m):
         return True
     with np.errstate(all='ignore'):
         s = m * 1024.0
+        # the sum of all magnitudes, in units of 2**-10, must still fit the
+        # 53-bit significand: then every partial sum in any order is exact
         return bool(np.isfinite(s).all() and (s == np.round(s)).all() and
-                    np.abs(m).max() < 2.0 ** 40)
+                    np.abs(s).sum() < 2.0 ** 52)
 
 
 def _num_eq(w, got, want, src=None):
